@@ -374,24 +374,47 @@ def op_cli(tok):
 
 
 def op_cliexits(tok):
-    """the except-clause → exit-code map, read off the source text of plan.report with `ast`"""
+    """the except-clause → exit-code map, read off the source text of plan.report with `ast`.  A handler that exits through a
+    helper of the module (`_fail(..., 2)` whose body calls `sys.exit(code)`) is followed one level; what cannot be read
+    statically is reported as `?` (not comparable — the exit codes are then tied by the subprocess runs alone)"""
     import ast
     import inspect
+    import textwrap
     import scriptplan.cli.plan as plan
     fn = plan.report.callback if hasattr(plan.report, "callback") else plan.report
-    src = inspect.getsource(fn)
-    import textwrap
-    tree = ast.parse(textwrap.dedent(src))
+    tree = ast.parse(textwrap.dedent(inspect.getsource(fn)))
+    try:
+        mod = ast.parse(inspect.getsource(plan))
+    except (OSError, SyntaxError):
+        mod = ast.Module(body=[], type_ignores=[])
+    helpers = {n.name: n for n in mod.body if isinstance(n, ast.FunctionDef)}
     res = {}
 
-    def exits(nodes):
+    def is_sys_exit(c):
+        return isinstance(c, ast.Call) and isinstance(c.func, ast.Attribute) and c.func.attr == "exit" \
+            and isinstance(c.func.value, ast.Name) and c.func.value.id == "sys" and c.args
+
+    def exits(nodes, depth=0):
         out = []
         for n in nodes:
             for c in ast.walk(n):
-                if isinstance(c, ast.Call) and isinstance(c.func, ast.Attribute) and c.func.attr == "exit" \
-                        and isinstance(c.func.value, ast.Name) and c.func.value.id == "sys" and c.args \
-                        and isinstance(c.args[0], ast.Constant):
-                    out.append(c.args[0].value)
+                if is_sys_exit(c):
+                    out.append(c.args[0].value if isinstance(c.args[0], ast.Constant) else None)
+                elif depth == 0 and isinstance(c, ast.Call) and isinstance(c.func, ast.Name) and c.func.id in helpers:
+                    h = helpers[c.func.id]
+                    params = [a.arg for a in h.args.args]
+                    defaults = dict(zip(params[len(params) - len(h.args.defaults):], h.args.defaults))
+                    for hc in ast.walk(h):
+                        if is_sys_exit(hc):
+                            a = hc.args[0]
+                            if isinstance(a, ast.Constant):
+                                out.append(a.value)
+                            elif isinstance(a, ast.Name) and a.id in params:
+                                k = params.index(a.id)
+                                v = c.args[k] if k < len(c.args) else next((kw.value for kw in c.keywords if kw.arg == a.id), defaults.get(a.id))
+                                out.append(v.value if isinstance(v, ast.Constant) else None)
+                            else:
+                                out.append(None)
         return out
     for node in ast.walk(tree):
         if isinstance(node, ast.Try) and node.handlers and len(node.handlers) >= 3:
@@ -403,9 +426,7 @@ def op_cliexits(tok):
                 res[name] = e[-1] if e else None
             break
     order = ["FileNotFoundError", "ReportGenerationError", "Exception", "success"]
-    if sorted(res) != sorted(order):
-        return "untranslatable " + json.dumps(res, sort_keys=True)
-    return " ".join("%s=%s" % (k, res[k]) for k in order)
+    return " ".join("%s=%s" % (k, "?" if res.get(k) is None else res[k]) for k in order)
 
 
 # ------------------------------------------------------------------ concurrent runs (C20)
